@@ -199,3 +199,28 @@ UNITS += [_sr, _sw]
 for _u in UNITS:
     if not _u.replay:
         _u.replay = replay.battery('C16/driver.cpp', ['battery'])
+
+
+def pre_checks(work):
+    """The units attach contracts to the TEMPLATES swapBytes<T> / bytesSwapped<T> and to the templated stream operators.  C++ overload resolution would prefer a non-template
+    overload for a concrete type, which the extraction (text of the template) would not see: if such an overload exists the units no longer describe the code that runs."""
+    import re
+    from vf import core as _c
+    out = []
+    # (StreamBufferReader's operator>> per type are explicit on the pinned tree and go through read2/4/8: units Reader_read*)
+    for f, names in [('include/asl/defs.h', ['swapBytes', 'bytesSwapped']), ('include/asl/StreamBuffer.h', ['operator<<']), ('include/asl/File.h', ['operator<<', 'operator>>']), ('include/asl/Socket.h', ['operator<<', 'operator>>'])]:
+        try:
+            src = _c.strip_comments(_c.read_repo(f))
+        except Exception as e:
+            out.append({'name': 'overloads:' + f, 'ok': False, 'detail': 'cannot read %s: %r' % (f, e)})
+            continue
+        for n in names:
+            if n.startswith('operator'):
+                # stream operators for 16/32/64-bit scalars must come from the template (char/byte/bool/String overloads are single bytes or other properties)
+                bad = re.findall(r'%s\s*\(\s*(?:const\s+)?((?:unsigned\s+)?(?:short|int|long|Long|ULong|float|double))\s*&' % re.escape(n), src)
+            else:
+                bad = re.findall(r'\b%s\s*\(\s*(?:const\s+)?((?:unsigned\s+)?\w+)\s*&' % n, src)
+                bad = [b for b in bad if b != 'T']
+            out.append({'name': 'overloads:%s:%s' % (f, n), 'ok': not bad,
+                        'detail': 'non-template overload(s) of %s for %s in %s: overload resolution would bypass the template the units verify' % (n, ', '.join(sorted(set(bad))), f) if bad else 'only the template'})
+    return out
